@@ -120,10 +120,10 @@ func Sleep(d time.Duration) {
 
 // Timer mirrors time.Timer (C, Stop, Reset).
 type Timer struct {
-	C     <-chan time.Time
-	c     chan time.Time
-	real  *time.Timer
-	when  time.Time
+	C      <-chan time.Time
+	c      chan time.Time
+	real   *time.Timer
+	when   time.Time
 	f      func()
 	fired  bool
 	isReal bool
